@@ -66,6 +66,10 @@ func (r structReflect) Set(key string, val Value) {
 		panic(fmt.Sprintf("key %s may not be set on struct %T: field is in an inlined struct behind a nil pointer", key, r.Value.Interface()))
 	}
 	newVal := reflect.ValueOf(val.Unstructured())
+	if !newVal.IsValid() {
+		// a null value: the zero value of the field (nil for interfaces and pointers)
+		newVal = reflect.Zero(oldVal.Type())
+	}
 	r.update(fieldEntry, key, oldVal, newVal)
 }
 
